@@ -10,7 +10,7 @@ CONSTANTS
   Bodies = {"none", "p1"}
   TSs = {FALSE}
   NCs = {""}
-  Dynamic = TRUE
+  Dynamic = FALSE
   MaxSteps = 6
   MaxReqs = 6
   Devs = {}
